@@ -247,48 +247,44 @@ func c02(w *core.World, r *core.Report) {
 	r.Rule("OWNER-READ-COMPLETE", 1, "TreeCacheClientImpl.ReadUpdatesOwner reads the owner's complete path list per priority (whole list, or chunks whose loop runs while 'index < len(list)'): entries that are not loaded cannot be marked for deletion and survive a shrink or delete of the intent.")
 	ruleOwnerReadComplete(w, r, "OWNER-READ-COMPLETE")
 
-	// ---- MARK-DELETE
-	r.Rule("MARK-DELETE", 3, "in RootEntry.LoadIntendedStoreOwnerData: the owner's stored entries are read with ReadUpdatesOwner(owner), added to the tree, and markOwnerDelete(owner) executes on every path to a success return and after the add loop; markOwnerDelete marks the owner's variant (GetByOwner + MarkDelete) and recurses into ALL children.")
+	// ---- MARK-DELETE (shared with C09)
+	ruleMarkDelete(w, r, load)
+
+	// ---- SKIP-ALL-ACTORS
+	r.Rule("SKIP-ALL-ACTORS", 1, "when the stored alternatives of the involved paths are loaded (ReadCurrentUpdatesHighestPriorities), the stored entries of EVERY intent of the transaction are left out: the list the owner of a read entry is looked up in comes from Transaction.GetIntentNames() and from nothing else. A stored entry of an acting intent that is added again un-marks the very entry that was loaded and marked for deletion for that intent (LeafVariants.Add drops the delete flag of an equal entry): the path the intent dropped is never deleted from its stored version.")
 	{
-		marks := core.CallsTo(load, "tree.sharedEntryAttributes.markOwnerDelete", "tree.RootEntry.markOwnerDelete")
-		if len(marks) != 1 {
-			r.Viol("MARK-DELETE", core.Site(load, "markOwnerDelete"), w.Pos(load.Pos()), fmt.Sprintf("expected one markOwnerDelete call, found %d", len(marks)))
-		} else {
-			mark := marks[0]
-			for _, ret := range core.Returns(load) {
-				e := errorOperand(ret)
-				if e != nil && core.IsNilConst(e) {
-					r.Check(core.InstrBefore(mark, ret), "MARK-DELETE", core.Site(load, "mark before success return"), w.InstrPos(ret), "old content must be marked for deletion before the new content is merged in")
+		n := 0
+		for _, c := range core.Calls(low) {
+			if !strings.HasPrefix(core.CalleeKey(c), "slices.Contains") {
+				continue
+			}
+			a := c.Common().Args
+			if len(a) != 2 {
+				continue
+			}
+			isOwner := false
+			for _, oc := range core.OriginCalls(a[1]) {
+				if core.CalleeIs(oc, "cache.Update.Owner") {
+					isOwner = true
 				}
 			}
-			for _, a := range core.CallsTo(load, "tree.sharedEntryAttributes.AddCacheUpdateRecursive", "tree.RootEntry.AddCacheUpdateRecursive") {
-				r.Check(!core.CanFollow(mark, a), "MARK-DELETE", core.Site(load, "mark after the add loop"), w.InstrPos(a), "entries added after the mark would not be marked")
+			if !isOwner {
+				continue
 			}
-			// owner consistency
-			p := core.Param(load, "owner")
-			okOwner := false
-			for _, a := range core.CallArgs(mark) {
-				if p != nil && core.HasOrigin(a, p) {
-					okOwner = true
-				}
-			}
-			rd := core.CallsTo(load, "tree.TreeCacheClient.ReadUpdatesOwner")
-			okRead := false
-			for _, c := range rd {
-				for _, a := range core.CallArgs(c) {
-					if p != nil && core.HasOrigin(a, p) {
-						okRead = true
+			n++
+			bad := ""
+			core.WithHost(low, func() {
+				for _, o := range core.Origins(a[0]) {
+					if oc, ok := o.(*ssa.Call); ok && core.CalleeIs(oc, "datastore/types.Transaction.GetIntentNames") {
+						continue
 					}
+					bad = o.String()
 				}
-			}
-			r.Check(okOwner && okRead, "MARK-DELETE", core.Site(load, "same owner read and marked"), w.InstrPos(mark), "the entries read and the entries marked must be those of the owner parameter")
+			})
+			r.Check(bad == "", "SKIP-ALL-ACTORS", core.Site(low, "alternatives skip every intent of the transaction"), w.InstrPos(c), "the skip list is "+bad+", not the names of all intents of the transaction")
 		}
-		mo := w.Func("pkg/tree", "sharedEntryAttributes", "markOwnerDelete")
-		if mo != nil {
-			okLeaf := len(core.CallsTo(mo, "tree.LeafVariants.GetByOwner")) > 0 && len(core.CallsTo(mo, "tree.LeafEntry.MarkDelete")) > 0
-			okRec := len(core.CallsTo(mo, "tree.Entry.markOwnerDelete")) > 0 && len(core.CallsTo(mo, "tree.childMap.GetAll")) > 0
-			r.Check(okLeaf, "MARK-DELETE", core.Site(mo, "marks the owner's variant"), w.Pos(mo.Pos()), "GetByOwner + MarkDelete")
-			r.Check(okRec, "MARK-DELETE", core.Site(mo, "recurses into all children"), w.Pos(mo.Pos()), "inactive choice cases included: childs.GetAll(), not the active-case filter")
+		if n == 0 {
+			r.Viol("SKIP-ALL-ACTORS", core.Site(low, "alternatives skip every intent of the transaction"), w.Pos(low.Pos()), "the loaded alternatives are not filtered by owner at all")
 		}
 	}
 
@@ -521,6 +517,34 @@ func c05(w *core.World, r *core.Report) {
 		}
 	}
 
+	// ---- ROLLBACK-COMPLETE
+	r.Rule("ROLLBACK-COMPLETE", 1, "GetRollbackTransaction hands every old intent to AddTransactionIntent and discards the result, so AddTransactionIntent must not be able to refuse one of them: its only failing return is the duplicate-name one (guarded by the 'exists' outcome of the lookup in the intent map). Any other refusal (an input check added for the request path) silently drops that intent from the rollback: Cancel and the timeout then leave it changed.")
+	if add := w.Func("pkg/datastore/types", "Transaction", "AddTransactionIntent"); add != nil {
+		n := 0
+		for i, ret := range core.EffectiveReturns(add) {
+			ev := errorOperand(ret)
+			if ev == nil || core.IsNilConst(ev) {
+				continue
+			}
+			n++
+			dup := false
+			for _, a := range core.GuardAtoms(ret) {
+				if !a.True {
+					continue
+				}
+				if ex, ok := a.Cond.(*ssa.Extract); ok && ex.Index == 1 {
+					if _, isLookup := ex.Tuple.(*ssa.Lookup); isLookup {
+						dup = true
+					}
+				}
+			}
+			r.Check(dup, "ROLLBACK-COMPLETE", core.Site(add, "failing return#%d is the duplicate-name refusal", i), w.InstrPos(ret), "AddTransactionIntent refuses an intent for another reason than a duplicate name; GetRollbackTransaction ignores that error and the old intent is missing from the rollback")
+		}
+		if n == 0 {
+			r.OK("ROLLBACK-COMPLETE", core.Site(add, "cannot fail"), w.Pos(add.Pos()), "")
+		}
+	}
+
 	// ---- ROLLBACK-REACH
 	r.Rule("ROLLBACK-REACH", 6, "the timer callback and TransactionManager.Cancel reach RollbackInterface.TransactionRollback with dryRun=false; the adapter forwards to lowlevelTransactionSet with the same transaction and flag; GetRollbackTransaction stops the timer, ranges over ALL old intents adding each as a new intent of the rollback transaction on every path of the loop body, and marks the result as rollback.")
 	{
@@ -652,6 +676,14 @@ func c09(w *core.World, r *core.Report) {
 	// ---- OWNER-READ-COMPLETE (shared with C02)
 	r.Rule("OWNER-READ-COMPLETE", 1, "the stored version of a re-submitted intent is loaded completely: TreeCacheClientImpl.ReadUpdatesOwner hands Read the whole per-priority path list of the keys index, or reads it in chunks whose loop runs while 'index < len(list)'. Entries that are not loaded look new, are flagged New and are sent again.")
 	ruleOwnerReadComplete(w, r, "OWNER-READ-COMPLETE")
+
+	// ---- MARK-DELETE (shared with C02)
+	if load := w.Func("pkg/tree", "RootEntry", "LoadIntendedStoreOwnerData"); load != nil {
+		ruleMarkDelete(w, r, load)
+	}
+
+	// ---- BRANCH-WHOLE (shared with C08)
+	ruleBranchWhole(w, r)
 
 	// ---- CASE-NOT-NEW
 	r.Rule("CASE-NOT-NEW", 1, "choice resolution on a re-apply: in populateChoiceCaseResolvers the 'new' marker handed to choiceCasesResolver.SetValue depends on a comparison with what the index holds for ALL owners (a GetBranchesHighesPrecedence lookup without owner filters): a branch that was stored with the same precedence before the transaction is not new, otherwise the case an unchanged intent rules is missing from the 'old best case' and a delete for the other intents' case is sent with every re-apply.")
@@ -803,4 +835,74 @@ func detachedContext(v ssa.Value, depth int) bool {
 		}
 	}
 	return true
+}
+
+// ruleMarkDelete (C02, C09): the stored version of a re-submitted intent is loaded unflagged and marked for deletion
+// afterwards, in one pass over the tree.
+func ruleMarkDelete(w *core.World, r *core.Report, load *ssa.Function) {
+	r.Rule("MARK-DELETE", 3, "in RootEntry.LoadIntendedStoreOwnerData: the owner's stored entries are read with ReadUpdatesOwner(owner), added to the tree, and markOwnerDelete(owner) executes on every path to a success return and after the add loop; markOwnerDelete marks the owner's variant (GetByOwner + MarkDelete) and recurses into ALL children.")
+	{
+		marks := core.CallsTo(load, "tree.sharedEntryAttributes.markOwnerDelete", "tree.RootEntry.markOwnerDelete")
+		if len(marks) != 1 {
+			r.Viol("MARK-DELETE", core.Site(load, "markOwnerDelete"), w.Pos(load.Pos()), fmt.Sprintf("expected one markOwnerDelete call, found %d", len(marks)))
+		} else {
+			mark := marks[0]
+			for _, ret := range core.Returns(load) {
+				e := errorOperand(ret)
+				if e != nil && core.IsNilConst(e) {
+					r.Check(core.InstrBefore(mark, ret), "MARK-DELETE", core.Site(load, "mark before success return"), w.InstrPos(ret), "old content must be marked for deletion before the new content is merged in")
+				}
+			}
+			for _, a := range core.CallsTo(load, "tree.sharedEntryAttributes.AddCacheUpdateRecursive", "tree.RootEntry.AddCacheUpdateRecursive") {
+				r.Check(!core.CanFollow(mark, a), "MARK-DELETE", core.Site(load, "mark after the add loop"), w.InstrPos(a), "entries added after the mark would not be marked")
+			}
+			// owner consistency
+			p := core.Param(load, "owner")
+			okOwner := false
+			for _, a := range core.CallArgs(mark) {
+				if p != nil && core.HasOrigin(a, p) {
+					okOwner = true
+				}
+			}
+			rd := core.CallsTo(load, "tree.TreeCacheClient.ReadUpdatesOwner")
+			okRead := false
+			for _, c := range rd {
+				for _, a := range core.CallArgs(c) {
+					if p != nil && core.HasOrigin(a, p) {
+						okRead = true
+					}
+				}
+			}
+			r.Check(okOwner && okRead, "MARK-DELETE", core.Site(load, "same owner read and marked"), w.InstrPos(mark), "the entries read and the entries marked must be those of the owner parameter")
+		}
+		mo := w.Func("pkg/tree", "sharedEntryAttributes", "markOwnerDelete")
+		if mo != nil {
+			okLeaf := len(core.CallsTo(mo, "tree.LeafVariants.GetByOwner")) > 0 && len(core.CallsTo(mo, "tree.LeafEntry.MarkDelete")) > 0
+			okRec := len(core.CallsTo(mo, "tree.Entry.markOwnerDelete")) > 0 && len(core.CallsTo(mo, "tree.childMap.GetAll")) > 0
+			r.Check(okLeaf, "MARK-DELETE", core.Site(mo, "marks the owner's variant"), w.Pos(mo.Pos()), "GetByOwner + MarkDelete")
+			r.Check(okRec, "MARK-DELETE", core.Site(mo, "recurses into all children"), w.Pos(mo.Pos()), "inactive choice cases included: childs.GetAll(), not the active-case filter")
+		}
+	}
+	// the stored entries go into the tree WITHOUT flags: the store keeps superseded versions of a value next to the
+	// current one (timestamp in the key), the second insertion of a path runs LeafVariants.Add -> MarkUpdate, which only
+	// the separate marking pass afterwards resets. Inserting with the delete flag set makes an identical re-apply look
+	// like an update.
+	for _, c := range core.CallsTo(load, "tree.sharedEntryAttributes.AddCacheUpdateRecursive", "tree.RootEntry.AddCacheUpdateRecursive", "tree.Entry.AddCacheUpdateRecursive", "tree.RootEntry.AddCacheUpdatesRecursive", "tree.sharedEntryAttributes.AddCacheUpdatesRecursive") {
+		a := core.CallArgs(c)
+		if len(a) < 3 {
+			continue
+		}
+		setters := 0
+		for _, o := range append(core.Origins(a[2]), a[2]) {
+			if o.Referrers() == nil {
+				continue
+			}
+			for _, ref := range *o.Referrers() {
+				if sc, ok := ref.(ssa.CallInstruction); ok && strings.HasPrefix(core.CalleeKey(sc), "tree.UpdateInsertFlags.Set") {
+					setters++
+				}
+			}
+		}
+		r.Check(setters == 0, "MARK-DELETE", core.Site(load, "stored entries are inserted without flags"), w.InstrPos(c), "the insert flags of the stored version are modified before the insertion")
+	}
 }
